@@ -174,5 +174,47 @@ func runC15(o Opts) error {
 			}
 		}
 	}
+	// Set on a variable that already holds an address: the result is the parse of the new text (Go-side probe)
+	setTexts := []string{"192.168.1.100", "192.168.1.100:12345", "192.168.1.100:60000", "192.168.1.100:60001", "10.0.0.1:1", "10.0.0.1", "0.0.0.0:0", "192.168.1.100:0"}
+	for _, a := range setTexts {
+		for _, b := range setTexts {
+			{
+				var v types.ControllerAddr
+				want, werr := types.ParseControllerAddr(b)
+				if v.Set(a) == nil && werr == nil && want.IsValid() {
+					if err := v.Set(b); err != nil || v != want {
+						s.Fail(map[string]any{"op": "set-sequence", "role": "controller", "first": a, "second": b, "got": v.String(), "want": want.String()}, "ControllerAddr.Set after an earlier Set does not yield the parse of the new text")
+					}
+				}
+			}
+			{
+				var v types.BindAddr
+				want, werr := types.ParseBindAddr(b)
+				if v.Set(a) == nil && werr == nil {
+					if err := v.Set(b); err != nil || v != want {
+						s.Fail(map[string]any{"op": "set-sequence", "role": "bind", "first": a, "second": b, "got": v.String(), "want": want.String()}, "BindAddr.Set after an earlier Set does not yield the parse of the new text")
+					}
+				}
+			}
+			{
+				var v types.BroadcastAddr
+				want, werr := types.ParseBroadcastAddr(b)
+				if v.Set(a) == nil && werr == nil {
+					if err := v.Set(b); err != nil || v != want {
+						s.Fail(map[string]any{"op": "set-sequence", "role": "broadcast", "first": a, "second": b, "got": v.String(), "want": want.String()}, "BroadcastAddr.Set after an earlier Set does not yield the parse of the new text")
+					}
+				}
+			}
+			{
+				var v types.ListenAddr
+				want, werr := types.ParseListenAddr(b)
+				if v.Set(a) == nil && werr == nil {
+					if err := v.Set(b); err != nil || v != want {
+						s.Fail(map[string]any{"op": "set-sequence", "role": "listen", "first": a, "second": b, "got": v.String(), "want": want.String()}, "ListenAddr.Set after an earlier Set does not yield the parse of the new text")
+					}
+				}
+			}
+		}
+	}
 	return s.Close()
 }
